@@ -17,7 +17,13 @@ META = {
         'opposite; (inclusive) coordinates are inclusive everywhere: every '
         'size or index range computed from a (lower, upper) pair adds one, '
         'emptiness tests between a lower and an upper bound are non-strict, '
-        'and rectangle splitting steps by exactly one.'),
+        'and rectangle splitting steps by exactly one; (nodup) set difference '
+        'removes from each area of the left operand what earlier areas already '
+        'contributed (the pieces produced so far join the set it is split '
+        'against), or de-duplicates afterwards; (shared) the value-extraction '
+        'and operator code of ranges.py never writes into a module-level '
+        'object or a memoised result, so the values seen through one reference '
+        'cannot leak into another.'),
     'not_decided': (
         'Correctness of split/merge/simplify on all rectangle pairs (the '
         'known loss of contained areas in simplify is value-level) and value '
@@ -410,5 +416,93 @@ def rule_inclusive(ctx):
     return rr
 
 
+def rule_nodup(ctx):
+    rr = RuleResult('C06', 'C06.nodup', 'DEP',
+                    'set difference does not repeat cells that overlapping '
+                    'areas of the left operand share', floor=1)
+    p = ctx.project
+    f = p.func(RANGES, 'Ranges.__sub__')
+    selfn = f.params[0]
+    rr.instances += 1
+    outer = [n for n in f.node.body if isinstance(n, ast.For) and any(
+        isinstance(x, ast.Name) and x.id == selfn for x in ast.walk(n.iter))]
+    if len(outer) != 1:
+        raise AnalysisError('Ranges.__sub__: loop over the areas of the left '
+                            'operand not recognised')
+    lp = outer[0]
+    splits = [c for c in ast.walk(lp) if isinstance(c, ast.Call) and
+              call_name(c) == '_split' and c.args]
+    if not splits:
+        raise AnalysisError('Ranges.__sub__: no _split call in the loop')
+    # names derived from the split results inside the loop
+    derived = set()
+    changed = True
+    while changed:
+        changed = False
+        for n in ast.walk(lp):
+            val, tgts = None, []
+            if isinstance(n, ast.Assign):
+                val, tgts = n.value, n.targets
+            elif isinstance(n, ast.AugAssign):
+                val, tgts = n.value, [n.target]
+            elif isinstance(n, ast.Expr) and isinstance(n.value, ast.Call) and \
+                    call_name(n.value) in ('extend', 'append', 'update', 'add') \
+                    and isinstance(n.value.func, ast.Attribute):
+                val, tgts = n.value, [n.value.func.value]
+            if val is None:
+                continue
+            dep = any(c in splits for c in ast.walk(val)) or any(
+                isinstance(x, ast.Name) and x.id in derived
+                for x in ast.walk(val))
+            if dep:
+                for t in tgts:
+                    for x in ast.walk(t):
+                        if isinstance(x, ast.Name) and x.id not in derived:
+                            derived.add(x.id)
+                            changed = True
+    # the collections the subtrahend rectangle `b` of _split(b, r) is drawn from
+    against = []
+    for c in splits:
+        b = c.args[0]
+        if not isinstance(b, ast.Name):
+            raise AnalysisError('Ranges.__sub__: first argument of _split is '
+                                'not a loop variable')
+        src_it = None
+        for n in ast.walk(lp):
+            if isinstance(n, (ast.For, ast.comprehension)) and any(
+                    isinstance(x, ast.Name) and x.id == b.id
+                    for x in ast.walk(n.target)):
+                src_it = n.iter
+        if src_it is None:
+            raise AnalysisError('Ranges.__sub__: origin of `%s` not found' % b.id)
+        against.append(src_it)
+    carried = all(any(isinstance(x, ast.Name) and x.id in derived
+                      for x in ast.walk(it)) for it in against)
+    dedup = any(isinstance(c, ast.Call) and call_name(c) in (
+        'simplify', '_merge') for c in ast.walk(f.node))
+    if carried:
+        rr.ok('each area of the left operand is split against the right '
+              'operand *and* the pieces already produced (`%s` grows inside '
+              'the loop)' % ', '.join(sorted({norm_src(i) for i in against})),
+              '%s:%d' % (RANGES, lp.lineno))
+    elif dedup:
+        rr.ok('the result is de-duplicated by simplify()/_merge()',
+              '%s:%d' % (RANGES, f.lineno))
+    else:
+        rr.fail(key_of(f, 'pieces not split against earlier pieces'),
+                'Ranges.__sub__ splits every area of the left operand only '
+                'against `%s`, which does not grow with the pieces already '
+                'produced, and nothing de-duplicates the result: when areas '
+                'of the left operand overlap (a union keeps overlaps), the '
+                'shared cells appear twice in the difference' % ', '.join(
+                    sorted({norm_src(i) for i in against})),
+                file=RANGES, function=f.qualname, line=lp.lineno)
+    return rr
+
+
 def run(ctx):
-    return [rule_ops(ctx), rule_lattice(ctx), rule_inclusive(ctx)]
+    from .c17 import rule_global
+    shared = rule_global(ctx, 'C06', 'C06.shared', floor=8,
+                         only=lambda f: f.module.rel == RANGES)
+    return [rule_ops(ctx), rule_lattice(ctx), rule_inclusive(ctx),
+            rule_nodup(ctx), shared]
